@@ -68,102 +68,94 @@ RanOK(ran, arm, rel, R) ==
          /\ RanOK(Tail(ran), [arm EXCEPT ![r] = "done"], rel, R)
 Disarm(ran) == [o \in Ids |-> IF \E i \in DOMAIN ran : ran[i] = o THEN "done" ELSE armed[o]]
 
-\* ---- guards (G) and effects (E); e is the event record
+\* ---- guards and effects; e is the event record.  The guard of every operation is split into
+\*      Pre(e)   the operation is one the program can perform now (a failure is a harness error)
+\*      Calls(e) the clauses about the destructor / free calls in e.ran
+\*      Post(e)  the clause specific to the operation
 Created(o) == kind[o] # ""
 Fresh(o) == kind[o] = ""
+Upd(f, o, v) == [f EXCEPT ![o] = v]
 
-NewG(e) == /\ Fresh(e.o) /\ e.k \in Kinds /\ e.exc = ""
-           /\ (e.k \in {"W", "V"} => (Created(e.t) /\ name[e.t] /\ kind[e.t] = (IF e.k = "V" THEN "E" ELSE kind[e.t])))
+\* the program's references and the released flags once the operation has taken effect
+NameAfter(e)  == CASE e.op \in {"drop", "cycle"} -> Upd(name, e.o, FALSE)
+                   [] e.op = "new" -> Upd(name, e.o, TRUE)
+                   [] OTHER -> name
+AliasAfter(e) == CASE e.op = "alias" -> Upd(alias, e.o, TRUE)
+                   [] e.op = "dropalias" -> Upd(alias, e.o, FALSE)
+                   [] OTHER -> alias
+CycAfter(e)   == IF e.op = "cycle" THEN Upd(cyc, e.o, TRUE) ELSE cyc
+RelsdAfter(e) == IF e.op = "release" THEN Upd(relsd, e.o, TRUE) ELSE relsd
+ReachAfter(e) == Reach(NameAfter(e), AliasAfter(e), RelsdAfter(e))
+Rel(e) == IF e.op = "release" THEN e.o ELSE 0
+
+Pre(e) ==
+    CASE e.op = "new" ->
+           /\ Fresh(e.o) /\ e.k \in Kinds
+           /\ (e.k \in {"W", "V"} => (Created(e.t) /\ name[e.t]))
+           /\ (e.k = "V" => kind[e.t] = "E")
            /\ (e.k = "W" => kind[e.t] \in {"P", "S", "W", "A", "T", "V"})
-           /\ RanOK(e.ran, armed, 0, ReachNow)
-           \* Handle: live handles have pairwise distinct addresses
-           /\ (e.k = "H" => \A h \in Ids : (kind[h] = "H" /\ h \in ReachNow) => haddr[h] # e.addr)
-NewE(e) == /\ kind' = [kind EXCEPT ![e.o] = e.k] /\ name' = [name EXCEPT ![e.o] = TRUE]
-           /\ tgt' = [tgt EXCEPT ![e.o] = IF e.k \in {"W", "V"} THEN e.t ELSE 0]
-           /\ armed' = [Disarm(e.ran) EXCEPT ![e.o] = IF HasDtor(e.k) THEN "armed" ELSE "none"]
-           /\ haddr' = [haddr EXCEPT ![e.o] = IF e.k = "H" THEN e.addr ELSE 0]
-           /\ UNCHANGED <<alias, cyc, relsd, gone>>
+      [] e.op = "alias"       -> Created(e.o) /\ HasAlias(kind[e.o]) /\ name[e.o]
+      [] e.op = "dropalias"   -> Created(e.o) /\ alias[e.o]
+      [] e.op \in {"drop", "cycle"} -> Created(e.o) /\ name[e.o]
+      [] e.op = "release"     -> /\ Created(e.o) /\ Releasable(kind[e.o])
+                                 /\ (IF e.via = "alias" THEN alias[e.o] /\ kind[e.o] = "T" ELSE name[e.o])
+      [] e.op = "gcnone"      -> Created(e.o) /\ kind[e.o] = "W" /\ name[e.o]
+      [] e.op = "collect"     -> TRUE
+      [] e.op \in {"probelock", "probealive"} -> Created(e.o) /\ kind[e.o] = "E"
+      [] e.op = "probestruct" -> Created(e.o) /\ kind[e.o] \in {"S", "T"} /\ (name[e.o] \/ alias[e.o])
+      [] e.op = "fromhandle"  -> Created(e.o) /\ kind[e.o] = "H" /\ name[e.o]
+      [] OTHER -> FALSE
 
-\* the program's references change: nm, al, cy are the new values
-RefsG(e, nm, al, rl, rel) == RanOK(e.ran, armed, rel, Reach(nm, al, rl))
-RefsE(e, nm, al, cy, rl) == /\ name' = nm /\ alias' = al /\ cyc' = cy /\ relsd' = rl
-                            /\ armed' = Disarm(e.ran) /\ UNCHANGED <<kind, tgt, gone, haddr>>
+Calls(e) == RanOK(e.ran, armed, Rel(e), ReachAfter(e))
+\* the first offending call, for the verdict
+RECURSIVE CallsWhy(_, _, _, _)
+CallsWhy(ran, arm, rel, R) ==
+    IF ran = <<>> THEN "" ELSE
+    LET r == Head(ran) IN
+    IF ~(r \in Ids /\ HasDtor(kind[r])) THEN "UnknownCall"
+    ELSE IF arm[r] = "done" THEN "AtMostOnce"
+    ELSE IF arm[r] = "none" THEN "NeverAfterNone"
+    ELSE IF ~(r = rel \/ r \notin R) THEN "OnlyWhenDue"
+    ELSE CallsWhy(Tail(ran), [arm EXCEPT ![r] = "done"], rel, R)
 
-AliasG(e)     == Created(e.o) /\ HasAlias(kind[e.o]) /\ (name[e.o] \/ alias[e.o]) /\ e.exc = ""
-                 /\ RefsG(e, name, [alias EXCEPT ![e.o] = TRUE], relsd, 0)
-AliasE(e)     == RefsE(e, name, [alias EXCEPT ![e.o] = TRUE], cyc, relsd)
-DropAliasG(e) == Created(e.o) /\ alias[e.o] /\ e.exc = ""
-                 /\ RefsG(e, name, [alias EXCEPT ![e.o] = FALSE], relsd, 0)
-DropAliasE(e) == RefsE(e, name, [alias EXCEPT ![e.o] = FALSE], cyc, relsd)
-DropG(e)      == Created(e.o) /\ name[e.o] /\ e.exc = ""
-                 /\ RefsG(e, [name EXCEPT ![e.o] = FALSE], alias, relsd, 0)
-DropE(e)      == RefsE(e, [name EXCEPT ![e.o] = FALSE], alias, cyc, relsd)
-CycleG(e)     == DropG(e)
-CycleE(e)     == RefsE(e, [name EXCEPT ![e.o] = FALSE], alias, [cyc EXCEPT ![e.o] = TRUE], relsd)
-
-\* ffi.release(x) / with x: ...   (via the name, or via the alias p[0] for kind T)
-ReleaseG(e) ==
-    /\ Created(e.o) /\ Releasable(kind[e.o]) /\ (IF e.via = "alias" THEN alias[e.o] /\ kind[e.o] = "T" ELSE name[e.o])
-    /\ e.exc = ""                                                            \* Idempotent: never raises
-    /\ RefsG(e, name, alias, [relsd EXCEPT ![e.o] = TRUE], e.o)
-    /\ (kind[e.o] = "W" /\ armed[e.o] = "armed"
-          => \E i \in DOMAIN e.ran : e.ran[i] = e.o)                         \* AtRelease
-ReleaseE(e) == RefsE(e, name, alias, cyc, [relsd EXCEPT ![e.o] = TRUE])
-
-\* ffi.gc(w, None)
-GcNoneG(e) == Created(e.o) /\ kind[e.o] = "W" /\ name[e.o] /\ e.exc = "" /\ RanOK(e.ran, armed, 0, ReachNow)
-GcNoneE(e) == /\ armed' = [Disarm(e.ran) EXCEPT ![e.o] = IF @ = "armed" THEN "none" ELSE @]
-              /\ UNCHANGED <<kind, name, alias, cyc, tgt, relsd, gone, haddr>>
-
-\* gc.collect()
-CollectG(e) == /\ e.exc = "" /\ RanOK(e.ran, armed, 0, ReachNow)
-               /\ \A o \in Ids : (Created(o) /\ HasDtor(kind[o]) /\ Disarm(e.ran)[o] = "armed")
-                                   => o \in ReachNow                          \* AtCollection
-CollectE(e) == /\ armed' = Disarm(e.ran)
-               /\ gone' = [o \in Ids |-> gone[o] \/ (Created(o) /\ o \notin ReachNow)]
-               /\ cyc' = [o \in Ids |-> FALSE]
-               /\ UNCHANGED <<kind, name, alias, tgt, relsd, haddr>>
-
-\* probes (no calls may happen during a probe unless due)
 Views(x) == {v \in Ids : kind[v] = "V" /\ tgt[v] = x /\ ~relsd[v]}
-ProbeLockG(e) ==         \* bytearray.extend(): e.obs = TRUE iff BufferError was raised
-    /\ Created(e.o) /\ kind[e.o] = "E" /\ RanOK(e.ran, armed, 0, ReachNow)
-    /\ ((\E v \in Views(e.o) : v \in ReachNow) => e.obs = TRUE)               \* Locked
-    /\ (e.obs = TRUE => \E v \in Views(e.o) : ~gone[v])                       \* ... and not longer
-ProbeAliveG(e) ==        \* weak reference to the exporter: e.obs = TRUE iff it is still alive
-    /\ Created(e.o) /\ kind[e.o] = "E" /\ RanOK(e.ran, armed, 0, ReachNow)
-    /\ ((name[e.o] \/ \E v \in Views(e.o) : v \in ReachNow) => e.obs = TRUE)  \* KeptAlive
-ProbeStructG(e) ==       \* e.obs = TRUE iff the struct's owner is alive and its content intact
-    /\ Created(e.o) /\ kind[e.o] \in {"S", "T"} /\ (name[e.o] \/ alias[e.o])
-    /\ RanOK(e.ran, armed, 0, ReachNow)
-    /\ ((kind[e.o] = "S" \/ armed[e.o] # "done") => e.obs = TRUE)             \* StructValid
-FromHandleG(e) ==        \* e.obs = TRUE iff ffi.from_handle(h) is the object given to new_handle()
-    /\ Created(e.o) /\ kind[e.o] = "H" /\ name[e.o] /\ RanOK(e.ran, armed, 0, ReachNow)
-    /\ e.obs = TRUE /\ e.exc = ""                                             \* Handle
-ProbeE(e) == armed' = Disarm(e.ran) /\ UNCHANGED <<kind, name, alias, cyc, tgt, relsd, gone, haddr>>
+\* Post(e) gives "" or the name of the violated clause
+Post(e) ==
+    CASE e.op = "new" ->
+           IF e.exc # "" THEN "Harness"
+           ELSE IF e.k = "H" /\ \E x \in Ids : kind[x] = "H" /\ x \in ReachNow /\ haddr[x] = e.addr
+                THEN "HandleDistinct" ELSE ""
+      [] e.op = "release" ->
+           IF e.exc # "" THEN "Idempotent"                                  \* release never raises
+           ELSE IF kind[e.o] = "W" /\ armed[e.o] = "armed" /\ ~\E i \in DOMAIN e.ran : e.ran[i] = e.o
+                THEN "AtRelease" ELSE ""
+      [] e.op = "collect" ->
+           IF \E o \in Ids : Created(o) /\ HasDtor(kind[o]) /\ Disarm(e.ran)[o] = "armed" /\ o \notin ReachNow
+           THEN "AtCollection" ELSE ""
+      [] e.op = "probelock" ->       \* e.obs = TRUE iff resizing raised BufferError
+           IF (\E v \in Views(e.o) : v \in ReachNow) /\ e.obs # TRUE THEN "Locked"
+           ELSE IF e.obs = TRUE /\ ~\E v \in Views(e.o) : ~gone[v] THEN "Unlocked" ELSE ""
+      [] e.op = "probealive" ->      \* e.obs = TRUE iff the exporter is still alive
+           IF (name[e.o] \/ \E v \in Views(e.o) : v \in ReachNow) /\ e.obs # TRUE THEN "KeptAlive" ELSE ""
+      [] e.op = "probestruct" ->     \* e.obs = TRUE iff the struct's owner is alive and its content intact
+           IF (kind[e.o] = "S" \/ armed[e.o] # "done") /\ e.obs # TRUE THEN "StructValid" ELSE ""
+      [] e.op = "fromhandle" ->      \* e.obs = TRUE iff from_handle(h) is the object given to new_handle()
+           IF e.obs # TRUE \/ e.exc # "" THEN "FromHandle" ELSE ""
+      [] OTHER -> IF e.exc # "" THEN "Harness" ELSE ""
 
-Guard(e) == CASE e.op = "new"       -> NewG(e)
-              [] e.op = "alias"     -> AliasG(e)
-              [] e.op = "dropalias" -> DropAliasG(e)
-              [] e.op = "drop"      -> DropG(e)
-              [] e.op = "cycle"     -> CycleG(e)
-              [] e.op = "release"   -> ReleaseG(e)
-              [] e.op = "gcnone"    -> GcNoneG(e)
-              [] e.op = "collect"   -> CollectG(e)
-              [] e.op = "probelock" -> ProbeLockG(e)
-              [] e.op = "probealive" -> ProbeAliveG(e)
-              [] e.op = "probestruct" -> ProbeStructG(e)
-              [] e.op = "fromhandle" -> FromHandleG(e)
-              [] OTHER -> FALSE
-Effect(e) == CASE e.op = "new"       -> NewE(e)
-               [] e.op = "alias"     -> AliasE(e)
-               [] e.op = "dropalias" -> DropAliasE(e)
-               [] e.op = "drop"      -> DropE(e)
-               [] e.op = "cycle"     -> CycleE(e)
-               [] e.op = "release"   -> ReleaseE(e)
-               [] e.op = "gcnone"    -> GcNoneE(e)
-               [] e.op = "collect"   -> CollectE(e)
-               [] OTHER              -> ProbeE(e)
+Guard(e) == Pre(e) /\ Calls(e) /\ Post(e) = ""
+Why(e) == IF ~Pre(e) THEN "Harness"
+          ELSE IF ~Calls(e) THEN CallsWhy(e.ran, armed, Rel(e), ReachAfter(e))
+          ELSE Post(e)
 
-\* which clause of the property an event violates (for verdicts)
+Effect(e) ==
+    /\ name' = NameAfter(e) /\ alias' = AliasAfter(e) /\ relsd' = RelsdAfter(e)
+    /\ cyc' = (IF e.op = "collect" THEN [o \in Ids |-> FALSE] ELSE CycAfter(e))
+    /\ kind' = (IF e.op = "new" THEN Upd(kind, e.o, e.k) ELSE kind)
+    /\ tgt' = (IF e.op = "new" /\ e.k \in {"W", "V"} THEN Upd(tgt, e.o, e.t) ELSE tgt)
+    /\ haddr' = (IF e.op = "new" /\ e.k = "H" THEN Upd(haddr, e.o, e.addr) ELSE haddr)
+    /\ gone' = (IF e.op = "collect" THEN [o \in Ids |-> gone[o] \/ (Created(o) /\ o \notin ReachNow)] ELSE gone)
+    /\ armed' = (CASE e.op = "new" -> Upd(Disarm(e.ran), e.o, IF HasDtor(e.k) THEN "armed" ELSE "none")
+                   [] e.op = "gcnone" -> [Disarm(e.ran) EXCEPT ![e.o] = IF @ = "armed" THEN "none" ELSE @]
+                   [] OTHER -> Disarm(e.ran))
 =============================================================================
